@@ -159,11 +159,20 @@ def run(ctx):
     compl = const_eval(class_assign(nuc, "compl_symbol_dict"))
     # the mapper is built from the table over the ambiguous alphabet, into the ambiguous alphabet
     body = ast.unparse(nuc)
-    ctx.ob("R1.complement-mapper", TYPES, "NucleotideSequence", "_compl_mapper = AlphabetMapper(_compl_alphabet_unamb, alphabet_amb)",
-           "for _symbol in alphabet_amb.get_symbols():" in body and has_code(nuc, "_compl_symbols.append(compl_symbol_dict[_symbol])")
-           and has_code(nuc, "AlphabetMapper(_compl_alphabet_unamb, alphabet_amb)"),
-           "the complement mapper must map code i to the code of the complement of symbol i", nuc.lineno,
-           nontrivial=False)
+    # the mapper is what the class body BUILDS (evaluated: classeval): AlphabetMapper(source, target) sends code i to the code of
+    # source symbol i in target - source symbol i must be the complement of the i-th ambiguous symbol, target the ambiguous alphabet
+    from ..classeval import evaluate_class_body, CannotEvaluate
+    try:
+        nenv = evaluate_class_body(nuc)
+        mp = nenv.get("_compl_mapper")
+    except CannotEvaluate as ex:
+        nenv, mp = {}, ("?", str(ex))
+    ok_mp = isinstance(mp, tuple) and len(mp) == 3 and mp[0] == "AlphabetMapper" and isinstance(mp[1], tuple) and isinstance(mp[2], tuple) \
+        and mp[1][0] == mp[2][0] == "LetterAlphabet" and list(mp[2][1]) == list(amb) \
+        and list(mp[1][1]) == [compl[s_] for s_ in amb]
+    ctx.ob("R1.complement-mapper", TYPES, "NucleotideSequence", "_compl_mapper = AlphabetMapper(LetterAlphabet([complement of each ambiguous symbol]), alphabet_amb)",
+           ok_mp, "the complement mapper must map code i to the code of the complement of symbol i; the class body builds " + str(mp)[:160],
+           nuc.lineno)
     d13 = const_eval(class_assign(prot, "_dict_1to3"))
     palph = const_eval(class_assign(prot, "alphabet").args[0])
     ctx.ob("R1.letter-table-total", TYPES, "ProteinSequence._dict_1to3", f"{len(d13)} entries",
@@ -171,9 +180,18 @@ def run(ctx):
     ctx.ob("R1.letter-table-injective", TYPES, "ProteinSequence._dict_1to3", f"{len(set(d13.values()))} distinct codes",
            len(set(d13.values())) == len(d13), "two symbols share a three-letter code: the reverse table loses one",
            prot.lineno)
-    ctx.ob("R1.letter-table-inverse", TYPES, "ProteinSequence._dict_3to1", "built by inverting _dict_1to3",
-           "for _key, _value in _dict_1to3.items():" in ast.unparse(prot) and has_code(prot, "_dict_3to1[_value] = _key"),
-           "the reverse table must be derived from the forward table", prot.lineno, nontrivial=False)
+    try:
+        penv = evaluate_class_body(prot)
+        d31 = penv.get("_dict_3to1")
+    except CannotEvaluate as ex:
+        d31 = None
+    want31 = {v: k for k, v in d13.items()}
+    ctx.ob("R1.letter-table-inverse", TYPES, "ProteinSequence._dict_3to1", "the inverse of _dict_1to3 (plus the SEC / MSE synonyms)",
+           isinstance(d31, dict) and all(d31.get(k) == v for k, v in want31.items())
+           and all(k in want31 or k in ("SEC", "MSE") for k in d31) and d31.get("SEC", "C") == "C" and d31.get("MSE", "M") == "M",
+           "the reverse table must be the forward table read backwards; the class body builds "
+           + (str(sorted(set(d31.items()) ^ set(want31.items()))[:4]) if isinstance(d31, dict) else "something that cannot be evaluated"),
+           prot.lineno)
     # codon radix
     c = ctx.src(CODON)
     rm = c.module_assign("_radix_multiplier")
